@@ -635,7 +635,111 @@ func (e *Enc) frameCheckRef(kind, ref string, in ssa.Instruction) {
 	}
 }
 
-func (e *Enc) lockCheckLoad(p *Place, in ssa.Instruction) {}
+// guardOf: for a place that is a guarded field, the held-state term of its guard and the field's display name.
+func (e *Enc) guardOf(p *Place) (string, string, bool) {
+	if p.Kind != pHeap || len(p.Path) != 1 || p.Path[0].isIdx {
+		return "", "", false
+	}
+	st, ok := p.RootT.Underlying().(*types.Struct)
+	if !ok {
+		return "", "", false
+	}
+	fname := st.Field(p.Path[0].field).Name()
+	tname := ""
+	if n, ok := p.RootT.(*types.Named); ok {
+		tname = n.Obj().Name()
+	}
+	for _, sd := range e.w.cs.Shared {
+		if sd.Kind != "guarded_by" {
+			continue
+		}
+		parts := strings.SplitN(sd.Name, ".", 2)
+		if len(parts) != 2 || parts[1] != fname {
+			continue
+		}
+		if tname != "" && parts[0] != tname {
+			continue
+		}
+		if tname == "" && e.globalNameOfRef(p.Ref) != parts[0] {
+			continue
+		}
+		for i := 0; i < st.NumFields(); i++ {
+			if st.Field(i).Name() == sd.Guard {
+				g := e.w.cs.Ghosts["held"]
+				if g == nil {
+					return "", "", false
+				}
+				k := e.ghostKey(g)
+				return sel(e.get(e.st, k), fmt.Sprintf("(fieldaddr %s %d)", p.Ref, i)), sd.Name, true
+			}
+		}
+	}
+	return "", "", false
+}
+
+// globalNameOfRef: if ref is the value loaded from a package-level pointer variable, its name.
+func (e *Enc) globalNameOfRef(ref string) string {
+	return e.globalLoads[ref]
+}
+
+func (e *Enc) lockCheckLoad(p *Place, in ssa.Instruction) {
+	if e.noLocks {
+		return
+	}
+	h, name, ok := e.guardOf(p)
+	if !ok || e.pass == 1 {
+		return
+	}
+	base := "lock:read:" + name
+	e.panicOrd[base]++
+	n := base
+	if e.panicOrd[base] > 1 {
+		n = fmt.Sprintf("%s#%d", base, e.panicOrd[base])
+	}
+	o := e.addObl("lock", n, "C09.guarded.read", e.at[e.curBlock], fmt.Sprintf("(>= %s 1)", h))
+	o.Pos = e.w.fset.Position(in.Pos())
+	// remember that this map value came from a guarded field (for writes through it)
+	if v, isV := in.(ssa.Value); isV {
+		e.guardedVals[v] = [2]string{fmt.Sprintf("(fieldaddr %s %d)", p.Ref, e.guardIdx(p)), name}
+	}
+}
+
+func (e *Enc) guardIdx(p *Place) int {
+	st := p.RootT.Underlying().(*types.Struct)
+	fname := st.Field(p.Path[0].field).Name()
+	for _, sd := range e.w.cs.Shared {
+		parts := strings.SplitN(sd.Name, ".", 2)
+		if sd.Kind == "guarded_by" && len(parts) == 2 && parts[1] == fname {
+			for i := 0; i < st.NumFields(); i++ {
+				if st.Field(i).Name() == sd.Guard {
+					return i
+				}
+			}
+		}
+	}
+	return 0
+}
+
+// lockCheckWrite: a map update/delete through a map loaded from a guarded field needs the write lock.
+func (e *Enc) lockCheckWrite(m ssa.Value, in ssa.Instruction) {
+	gv, ok := e.guardedVals[m]
+	if !ok || e.pass == 1 || e.noLocks {
+		return
+	}
+	g := e.w.cs.Ghosts["held"]
+	if g == nil {
+		return
+	}
+	h := sel(e.get(e.st, e.ghostKey(g)), gv[0])
+	base := "lock:write:" + gv[1]
+	e.panicOrd[base]++
+	n := base
+	if e.panicOrd[base] > 1 {
+		n = fmt.Sprintf("%s#%d", base, e.panicOrd[base])
+	}
+	o := e.addObl("lock", n, "C09.guarded.write", e.at[e.curBlock], eq(h, "2"))
+	o.Pos = e.w.fset.Position(in.Pos())
+}
 
 // ---------- deferred calls ----------
 
@@ -716,6 +820,14 @@ func (e *Enc) ret(x *ssa.Return) {
 	if e.ctr == nil || e.pass == 1 {
 		return
 	}
+	if e.ctr.Unlocked {
+		if g := e.w.cs.Ghosts["held"]; g != nil {
+			k := e.ghostKey(g)
+			e.retCount["lock.released"]++
+			o := e.addObl("lock", fmt.Sprintf("lock:released@ret%d", e.retCount["lock.released"]), "C09.lock.released", e.at[e.curBlock], eq(e.get(e.st, k), "((as const (Array Int Int)) 0)"))
+			o.Pos = e.w.fset.Position(x.Pos())
+		}
+	}
 	env := e.entryEnv()
 	env.st = e.st
 	env.old = e.entry
@@ -782,6 +894,12 @@ func (e *Enc) assumeRequires() {
 	}
 	if e.ctr == nil {
 		return
+	}
+	if e.ctr.Unlocked {
+		if g := e.w.cs.Ghosts["held"]; g != nil {
+			k := e.ghostKey(g)
+			e.assert(eq(e.get(e.st, k), "((as const (Array Int Int)) 0)"))
+		}
 	}
 	env := e.entryEnv()
 	for _, h := range e.ctr.Holds {
